@@ -219,6 +219,8 @@ func c19apply(ctx context.Context, cli *jrpc2.Client, op c19op) string {
 // waiting for a reply that will never come. That is reported (instead of
 // hanging the bubble), the op's context is cancelled to get the caller back,
 // and what it then returns is rendered for the comparison.
+const c19stuck = "BLOCKED even after its context was cancelled"
+
 func c19applyBounded(c *vt.Ctx, ctrl *sched.Controller, cli *jrpc2.Client, op c19op, where string, names []string) string {
 	ctx, cancel := context.WithCancel(context.Background())
 	defer cancel()
@@ -240,7 +242,7 @@ func c19applyBounded(c *vt.Ctx, ctrl *sched.Controller, cli *jrpc2.Client, op c1
 		return "BLOCKED until its context was cancelled, then " + s
 	default:
 	}
-	return "BLOCKED even after its context was cancelled"
+	return c19stuck
 }
 
 func c19specString(specs []jrpc2.Spec) string {
@@ -265,6 +267,10 @@ func c19eqRun(c *vt.Ctx, ops []c19op) {
 	for _, op := range ops {
 		names = append(names, op.name)
 	}
+	if n := len(names); n > 16 {
+		// long runs: the messages name the length, the head and the tail
+		names = append(append(append([]string{fmt.Sprintf("(%d ops)", n)}, names[:4]...), "..."), names[n-8:]...)
+	}
 	ctrl := sched.New()
 	peer.Bubble(c, ctrl, func() {
 		// direct connection
@@ -273,6 +279,10 @@ func c19eqRun(c *vt.Ctx, ops []c19op) {
 		var obsD []string
 		for _, op := range ops {
 			obsD = append(obsD, c19applyBounded(c, ctrl, loc.Client, op, "direct connection", names))
+			if strings.HasPrefix(obsD[len(obsD)-1], c19stuck) {
+				c.Flush()
+				return // nothing more can be done with this client; the leak scan names the goroutine
+			}
 		}
 		if err := loc.Close(); err != nil {
 			c.Failf("direct: Local.Close: %v", err)
@@ -286,6 +296,13 @@ func c19eqRun(c *vt.Ctx, ops []c19op) {
 		var obsH []string
 		for _, op := range ops {
 			obsH = append(obsH, c19applyBounded(c, ctrl, cli, op, "HTTP channel", names))
+			if strings.HasPrefix(obsH[len(obsH)-1], c19stuck) {
+				// the caller is beyond recall (typically inside Channel.Send, under the client's
+				// mutex): every further operation, Close included, would queue up behind it on that
+				// mutex, which a bubble cannot tell from work in progress
+				c.Flush()
+				return
+			}
 		}
 		if err := cli.Close(); err != nil {
 			c.Failf("http: Client.Close after %v: %v", names, err)
@@ -766,6 +783,50 @@ func c19casesH(e vt.Env, yield func(vt.Case) bool) bool {
 				c.Distinct("Heq:" + join(names))
 				return !c.Failed()
 			})
+		}}) {
+			return false
+		}
+	}
+	// H/long: one long-lived channel. Whatever a Send reserves (a goroutine, a slot, a body,
+	// an entry) must be given back by the operation itself, or the N-th operation over the same
+	// channel behaves differently from the first: long runs of notifications (answered 204, no
+	// reply ever reaches Recv), of calls, and seeded mixtures of all operations, each followed by
+	// calls, compared op by op with a direct connection.
+	nLong := e.Pick(160, 700)
+	for _, kind := range []string{"notes", "batch-notes", "calls", "mix0", "mix1", "mix2"} {
+		kind := kind
+		id := fmt.Sprintf("H/long/%s/%d", kind, nLong)
+		if !yield(vt.Case{ID: id, Run: func(c *vt.Ctx) {
+			rng := e.Rand("C19/" + id)
+			byName := func(name string) c19op {
+				for _, op := range c19ops {
+					if op.name == name {
+						return op
+					}
+				}
+				panic("no op " + name)
+			}
+			var ops []c19op
+			for i := 0; i < nLong; i++ {
+				switch kind {
+				case "notes":
+					ops = append(ops, byName([]string{"notify", "notify", "notify", "notify-unknown"}[i%4]))
+				case "batch-notes":
+					ops = append(ops, byName("batch-notes"))
+				case "calls":
+					ops = append(ops, byName([]string{"call-echo-array", "call-rpcerr", "call-unknown", "batch-mixed"}[i%4]))
+				default:
+					if rng.IntN(2) == 0 {
+						ops = append(ops, byName([]string{"notify", "batch-notes", "notify-unknown"}[rng.IntN(3)]))
+					} else {
+						ops = append(ops, c19ops[rng.IntN(len(c19ops))])
+					}
+				}
+			}
+			ops = append(ops, byName("call-echo-object"), byName("batch-one-call-one-note"), byName("call-strict"))
+			c19eqRun(c, ops)
+			c.Count("h_long_ops", len(ops))
+			c.Distinct(id)
 		}}) {
 			return false
 		}
